@@ -38,6 +38,8 @@ PAIRS = {
     "valid_uno": ("atmelavr", "uno", True), "valid_every": ("atmelmegaavr", "nano_every", True), "valid_hyphen": ("atmelavr", "a-star32U4", True),
     "bad_platform": ("espressif32", "uno", False), "bad_board": ("atmelavr", "not_a_board", False),
     "mismatch": ("atmelavr", "nano_every", False), "mismatch2": ("atmelmegaavr", "uno", False),
+    "case_board": ("atmelavr", "UNO", False), "case_board2": ("atmelmegaavr", "Nano_Every", False), "case_platform": ("AtmelAVR", "uno", False),
+    "space_board": ("atmelavr", "uno ", False),
 }
 
 
@@ -48,9 +50,18 @@ def make_script(body: str, port: str, upload, platform: str, board: str, style: 
     kw.append(f"platform={platform!r}")
     kw.append(f"board={board!r}")
     call = f"target({port!r}, {', '.join(kw)})"
+    pre = ""
     if style == 1:
         call = "cpp = " + call
-    return "from Reduino import target\n" + call + "\n" + body
+    elif style == 2:
+        # the port (and board) come from constants of the script: the VALUES are passed, whatever the call text spells
+        pre = f"PORT = {port!r}\nBOARD = {board!r}\n"
+        kw2 = [k for k in kw if not k.startswith("board=")] + ["board=BOARD"]
+        call = f"target(PORT, {', '.join(kw2)})"
+    elif style == 3:
+        kw2 = list(reversed(kw))
+        call = f"result = target(port={port!r}, {', '.join(kw2)})"
+    return "from Reduino import target\n" + pre + call + "\n" + body
 
 
 def run_child(case):
@@ -222,7 +233,7 @@ def main() -> int:
     for k, (pair_name, sname, upload, faults) in enumerate(sel):
         plat, board, valid = PAIRS[pair_name]
         port = ports[k % len(ports)]
-        cases.append({"script": make_script(SCRIPTS[sname], port, upload, plat, board, k % 2), "faults": faults,
+        cases.append({"script": make_script(SCRIPTS[sname], port, upload, plat, board, k % 4), "faults": faults,
                       "platform": plat, "board": board, "port": port, "valid_pair": valid,
                       "upload_effective": True if upload is None else upload, "script_name": sname, "pair": pair_name,
                       "upload_arg": upload})
